@@ -41,6 +41,7 @@ def run_one(tape: Any, cfg: Dict[str, Any], forbid: FrozenSet[str] = frozenset()
     from .. import scen
     from .c04 import count_responses
 
+    scen.shared_state_begin()
     g = Gen(tape, forbid)
     res = Result()
     with World(tape) as w:
@@ -241,4 +242,4 @@ def run_one(tape: Any, cfg: Dict[str, Any], forbid: FrozenSet[str] = frozenset()
         res.states = states
         res.scenario = {'nconn': nconn, 'same': same, 'overlap': overlap, 'first': first, 'remote': remote,
                         'timeout_mode': timeout_mode, 'up_kind': up_kind, 'opts': opts, 'faults': dict(w.fault_kinds)}
-        return scen.end_run(w, h, res)
+        return scen.end_run(w, h, res, shared_check=True)
